@@ -1385,8 +1385,12 @@ class OptionStore:
             if key.subproject == subproject:
                 options[key] = valstr
 
-        # merge everything that has been computed above, while giving self.augments priority
-        for key, valstr in options.items():
+        # merge everything that has been computed above, while giving the
+        # augments that exist already priority; the ones that the buildtype
+        # expansion adds below must not hide a debug or optimization value
+        # that is given explicitly, so buildtype goes first
+        existing_augments = set(self.augments)
+        for key, valstr in self.buildtype_first(options).items():
             if key.subproject != subproject:
                 if key.subproject in self.subprojects and not self.option_has_value(key, valstr):
                     mlog.warning(f'option {key} is set in subproject {subproject} but has already been processed')
@@ -1398,7 +1402,7 @@ class OptionStore:
 
             self.pending_subproject_options.pop(key, None)
             self.pending_options.pop(key, None)
-            if key not in self.augments:
+            if key not in existing_augments:
                 self.set_user_option(key, valstr, True)
 
         self.subprojects.add(subproject)
